@@ -12,7 +12,8 @@ from native import mdibtools as mt
 
 KINDS = ('metric', 'alert', 'component', 'operational', 'context', 'location', 'rt', 'descr_update', 'descr_create',
          'descr_delete', 'descr_recreate', 'descr_create_siblings', 'descr_delete_siblings', 'mixed_descr_and_state',
-         'entity_state', 'entity_context', 'entity_descriptor', 'stale_entity', 'descr_update_context')
+         'entity_state', 'entity_context', 'entity_descriptor', 'stale_entity', 'descr_update_context',
+         'entity_descriptor_context', 'entity_remove_recreate')
 
 
 class History:
@@ -248,6 +249,36 @@ class History:
         with self.mdib.descriptor_transaction() as tr:
             tr.write_entity(ent)
         return [h]
+
+    def do_entity_descriptor_context(self):
+        """A context descriptor entity (descriptor + all its context states) written through a descriptor transaction."""
+        descr = [d for d in self.mdib.descriptions.objects if d.NODETYPE == pm.PatientContextDescriptor]
+        if not descr:
+            return self.do_entity_descriptor()
+        d = descr[0]
+        ent = self.mdib.entities.by_handle(d.Handle)
+        ent.descriptor.SafetyClassification = self.rnd.choice(list(pm_types.SafetyClassification))
+        if ent.states:
+            h = sorted(ent.states)[0]
+            ent.states[h].CoreData.Title = 'T%d' % self.counter
+        if self.rnd.random() < 0.5:
+            st = ent.new_state()
+            st.CoreData.Givenname = 'New%d' % self.counter
+        with self.mdib.descriptor_transaction() as tr:
+            tr.write_entity(ent)
+        return [d.Handle]
+
+    def do_entity_remove_recreate(self):
+        """Remove a created metric through the entity interface and write the old entity again (re-creation)."""
+        if not self.created:
+            self.do_descr_create()
+        handle, parent = self.created[-1]
+        ent = self.mdib.entities.by_handle(handle)
+        with self.mdib.descriptor_transaction() as tr:
+            tr.remove_entity(ent)
+        with self.mdib.descriptor_transaction() as tr:
+            tr.write_entity(ent)
+        return [handle]
 
     def do_stale_entity(self):
         """An entity read BEFORE its descriptor is updated is written afterwards (single state or context state)."""
